@@ -452,7 +452,14 @@ static void family_base_and_dev(const std::vector<Base>& B) {
       // quick: all handlers at equal sizes, all sizes with read_all / Easy; thorough: full cross product
       bool wanted = THOROUGH || zi == 0 || h == solmon::READ_ALL || h == H_EASY;
       if (!wanted) continue;
-      int bound = 1; if (THOROUGH && zi == 0 && (h == solmon::READ_ALL || h == H_EASY)) bound = 2;
+      // 2 deviations (thorough, equal sizes): read_all on every base except the 8-suffix one (its 2-deviation
+      // space alone is 1.1M; it stays in the 1-deviation family), SOLHandler_Easy on three bases
+      int bound = 1;
+      if (THOROUGH && zi == 0) {
+        const std::string& bn = B[bi].name;
+        if (h == solmon::READ_ALL && bn != "all_eight_suffixes") bound = 2;
+        if (h == H_EASY && (bn == "default" || bn == "var_int_suffix_sparse" || bn == "con_real_suffix_table1")) bound = 2;
+      }
       long long c = combo++;
       if (bound == 1 && !S.mine(c)) continue;
       vx::Explorer ex; ex.max_deviations = bound;
@@ -491,12 +498,12 @@ static void family_truncation(const std::vector<Base>& B) {
 }
 
 static void family_sufhead() {
-  std::vector<long> L = THOROUGH ? std::vector<long>{0, 1, 2, 7, 15, 16, 18, 511, 512, 513, 100000} : std::vector<long>{0, 1, 2, 16, 18, 512, 100000};
+  std::vector<long> L = THOROUGH ? std::vector<long>{0, 1, 2, 7, 15, 16, 18, 511, 512, 100000} : std::vector<long>{0, 1, 2, 16, 18, 512, 100000};
   Sol pre; pre.mp_zero_options_quirk = false; pre.message = "m"; pre.options = {1, 1, 0}; pre.nvars = 3; pre.ncons = 2; pre.primal = {1, 2, 3}; pre.dual = {4, 5};
   std::string tpre = solref::encode_text(pre), bpre = solref::encode_binary(pre);
   std::vector<std::string> ttails = {"", "ab\n1 low\n2 up\n0 1\n1 2\n2 3\n", std::string(15, 'n') + "\n" + std::string(600, 't') + "\n0 1\n",
                                      std::string(511, 'n') + "\n" + std::string(14, 't') + "\n0 1\n1 2\n"};
-  if (!THOROUGH) { ttails.resize(2); }
+  if (!THOROUGH) ttails.resize(2); else ttails.erase(ttails.begin() + 2);
   for (long kind : L) for (long n : L) for (long nl : L) for (long tl : L) for (long tn : L) for (size_t t = 0; t < ttails.size(); ++t) {
     Input in; in.nvars = 3; in.ncons = 2; in.handler = solmon::READ_ALL;
     in.bytes = tpre + "suffix " + std::to_string(kind) + " " + std::to_string(n) + " " + std::to_string(nl) + " " + std::to_string(tl) + " " + std::to_string(tn) + "\n" + ttails[t];
@@ -539,7 +546,8 @@ static void family_misc() {
     for (int c = 0; c < 256; ++c) for (int rep : {1, 2, 600}) { Input in; in.handler = h; in.nvars = 1; in.ncons = 1; in.bytes = std::string(rep, (char)c); in.family = "misc:single_byte_value"; emit(in); }
     for (const char* frag : {"\n", "\n\n", "\nO", "\nOptions", "\nOptions\n", "\n\nobjno", "\nobjno 0 0\nsuffix", "\n1\n1\nobjno 1e300 1e300\n", "\n1\n1\nobjno -1e300 0\n", "\n1\n1\nobjno 0 1e300\n",
                              "\nOptions\n3\n1\n1\n0\n1\n1\n1\n1\n1\n1\nobjno 0 0\nsuffix 0 0 2147483647 0 0\n", "\nOptions\n3\n1\n1\n0\n1\n1\n1\n1\n1\n1\nobjno 0 0\nsuffix 0 0 2 2147483647 1\n",
-                             "\nOptions\n3\n1\n1\n0\n1\n1\n1\n1\n1\n1\nobjno 0 0\nsuffix 0 0 2 2147483000 1\nab\n", "\nOptions\n3\n1\n1\n0\n1\n1\n1\n1\n1\n1\nobjno 0 0\nsuffix 0 99999999999 2 0 0\n"})
+                             "\nOptions\n3\n1\n1\n0\n1\n1\n1\n1\n1\n1\nobjno 0 0\nsuffix 0 0 2 2147483000 1\nab\n", "\nOptions\n3\n1\n1\n0\n1\n1\n1\n1\n1\n1\nobjno 0 0\nsuffix 0 99999999999 2 0 0\n",
+                             "\nOptions\n3\n1\n1\n0\n1\n1\n1\n1\n1\n1\nobjno 0 0\nsuffix 0 0 513 0 0\nab\n", "\nOptions\n3\n1\n1\n0\n1\n1\n1\n1\n1\n1\nobjno 0 0\nsuffix 0 0 514 0 0\nab\n"})
       { Input in; in.handler = h; in.nvars = 1; in.ncons = 1; in.bytes = frag; in.family = "misc:fragment"; emit(in); }
     std::string magic("\6\0\0\0binary\6\0\0\0", 14);
     for (size_t l = 0; l <= magic.size(); ++l) { Input in; in.handler = h; in.nvars = 1; in.ncons = 1; in.bytes = magic.substr(0, l) + std::string("\377\377\377\177", 4); in.family = "misc:binary_magic_then_huge_length"; emit(in); }
